@@ -474,6 +474,39 @@ fn c17_check(_ctx: &Ctx, c: &SeqCase) -> Report {
   rep
 }
 
+/// C17 through new-thread schedulers: the same audit after a concurrent scenario
+/// (observe_on / subscribe_on workers, an emitter thread, an unsubscribing thread)
+fn c17_conc_check(_ctx: &Ctx, c: &super::conc::C09Case) -> Report {
+  let r = super::conc::run_cc(&c.cc, 5_000);
+  let mut rep = Report::ok();
+  rep.classes = op_classes(&c.cc.case);
+  rep.sample = Some(format!(
+    "{} closures_left={} items_left={}",
+    super::conc::render_cc(&c.cc, &r),
+    r.log.live_closures,
+    r.log.live_items
+  ));
+  if let Some(k) = aborted(&r) {
+    rep.classes.push(format!("aborted:{}", k));
+    return rep;
+  }
+  if !r.log.epilogue_done || r.outcome.threads.iter().any(|t| t.lib && !t.finished) {
+    // a worker that never exits keeps its queue alive: C15's business
+    rep.classes.push("worker-alive(not judged here)".into());
+    return rep;
+  }
+  rep.nontrivial = r.log.made_items > 0 && r.outcome.threads.iter().any(|t| t.lib);
+  if r.log.live_closures != 0 || r.log.live_items != 0 {
+    rep.fail = Some(format!(
+      "after the subscription ended, the workers exited and all handles were dropped the library still owns {} closure(s) and {} item(s) | {}",
+      r.log.live_closures,
+      r.log.live_items,
+      super::conc::render_cc(&c.cc, &r)
+    ));
+  }
+  rep
+}
+
 pub fn properties() -> Vec<Property> {
   vec![
     Property {
@@ -508,7 +541,10 @@ pub fn properties() -> Vec<Property> {
       id: "C17",
       rule: "cases = pipeline over finite sources ended by complete / error / unsubscribe, every closure and item carries a liveness token; non-trivial = at least one operator and at least one item was produced",
       assumptions: vec!["harness sources drop their observer handles in the epilogue, as a well-behaved user source would"],
-      subs: vec![mk_sub("seq", (1500, 30_000), |ctx| seq_strategy(c17_cfg(ctx)), c17_check)],
+      subs: vec![
+        mk_sub("seq", (1500, 30_000), |ctx| seq_strategy(c17_cfg(ctx)), c17_check),
+        mk_sub("conc", (500, 10_000), |ctx| super::conc::c09_strategy(ctx, false), c17_conc_check),
+      ],
     },
   ]
 }
